@@ -176,28 +176,31 @@ Theorem local_in_band_binary64 : forall (amul : Q -> Q -> Q) (cast : Q -> Q) inp
 Proof. exact local_in_band_binary64_lemma. Qed.
 Print Assumptions local_in_band_binary64.
 
-(* ---------------------------------------------------------------- S5 for Ridler-Calvard and MCT (partial) *)
-From Centro Require Import Model.RidlerQ Proofs.ThresholdBracket.
-(* Full statement of S5 for these two methods: min masked <= threshold <= max masked.
-   Proved (rc_iter_bracket_partial): the Ridler-Calvard fixed-point iteration as written, over Q, never
-   leaves [a, b] once its starting value is inside (every iterate is the mean of two class means).
-   Missing: the monotone log / exp transfer (no rational model) and a correspondence tying Model.RidlerQ to
-   the code; the starting value is otsu of the stretched data, covered by otsu_bracket. *)
-Theorem rc_iter_bracket_partial : forall fuel delta a b im,
-  (forall x, In x im -> a <= x /\ x <= b) ->
-  forall pre t0 t, a <= t0 /\ t0 <= b -> rc_iter fuel delta im pre t0 = Some t -> a <= t /\ t <= b.
-Proof. exact rc_iter_bracket_partial_lemma. Qed.
-Print Assumptions rc_iter_bracket_partial.
+(* ---------------------------------------------------------------- S5 for Ridler-Calvard and MCT: executable models *)
+From Centro Require Import Model.RidlerQ Model.MctZ Proofs.ThresholdBracket Proofs.MctBracket.
+(* Ridler-Calvard, the model loop (Model.RidlerQ.rc_model: initial value otsu(im), then
+   new = mean(mean(im[im < t]), mean(im[im >= t])) until |pre - new| <= delta), tied to
+   get_ridler_calvard_threshold by the correspondence stream `rc`: for EVERY fuel, delta and data, whenever the
+   loop returns (Some = converged within fuel, no empty class) the result lies between the smallest and the
+   largest value.  The code's while-loop has no bound of its own; fuel is the harness's (200) and running out
+   is reported, never compared.  Outside the model: the log / exp transfer around the loop (monotone, applied by
+   the harness with NumPy). *)
+Theorem rc_model_bracket : forall fuel delta data lo hi t,
+  data <> [] -> (forall x, In x data -> (lo <= x <= hi)%Z) ->
+  rc_model fuel delta data = Some t -> inject_Z lo <= t /\ t <= inject_Z hi.
+Proof. exact rc_model_bracket_lemma. Qed.
+Print Assumptions rc_model_bracket.
 
-(* Proved (mct_bracket_partial): the final formula min + my_bin (max - min) / (bins - 1) is inside [min, max]
-   for 0 <= my_bin <= bins - 2.  Missing lemma: 1 <= argmax(mct), i.e. my_bin >= 0 (tail sums of the
-   deviations from the mean are positive wherever 0 < n_i < n, and mct[0] is reset to 0); sqrt has no
-   rational model, so the arg-max itself is not modelled. *)
-Theorem mct_bracket_partial : forall vmin vmax bins my_bin,
-  vmin <= vmax -> (2 <= bins)%Z -> (0 <= my_bin <= bins - 2)%Z ->
-  vmin <= mct_value vmin vmax bins my_bin /\ mct_value vmin vmax bins my_bin <= vmax.
-Proof. exact mct_bracket_partial_lemma. Qed.
-Print Assumptions mct_bracket_partial.
+(* Maximum correlation threshold, the whole model (Model.MctZ.mct_threshold: binning, tail counts and tail
+   deviation sums, squared scores, first arg-max, my_bin = argmax - 1, final formula), tied to
+   get_maximum_correlation_threshold by the stream `mct`: for ALL non-constant data and bins >= 2 the threshold
+   lies between the smallest and the largest value (the arg-max is never level 0: its score is 0 while the top
+   level's is positive; and it is below the number of levels). *)
+Theorem mct_model_bracket : forall data bins x0 r,
+  data = x0 :: r -> (zmin_l x0 data < zmax_l x0 data)%Z -> (2 <= bins)%Z ->
+  inject_Z (zmin_l x0 data) <= mct_threshold data bins /\ mct_threshold data bins <= inject_Z (zmax_l x0 data).
+Proof. exact mct_model_bracket_lemma. Qed.
+Print Assumptions mct_model_bracket.
 
 (* ---------------------------------------------------------------- S1: structure of the per-object and adaptive passes *)
 From Centro Require Import Spec.ThresholdStruct Model.AdaptiveGeom Proofs.ThresholdStructProofs.
@@ -249,3 +252,44 @@ Theorem adaptive_blocks_tile_refuted :
   exists size win, geom_ok size size win = true /\ last (ax_bounds (axis_geom size win)) 0%Z = (size - 1)%Z.
 Proof. exact adaptive_blocks_tile_refuted_lemma. Qed.
 Print Assumptions adaptive_blocks_tile_refuted.
+
+(* ---------------------------------------------------------------- bodies of Kapur / Background / RobustBackground *)
+From Centro Require Import Model.RobustQ Proofs.ThresholdBodies.
+
+(* masked-crop non-interference for the three bodies: their REGENERATED access lists say that each reads `image`
+   only as image[mask] (or the whole image when mask is None), and any function of that crop cannot distinguish
+   images agreeing on the mask *)
+Theorem body_methods_crop_first :
+  (forall f, In f ["get_kapur_threshold"; "get_background_threshold"; "get_robust_background_threshold"]%string ->
+     exists acc, In (f, acc) threshold_access /\ forallb access_ok acc = true /\
+                 (forall a, In a acc -> a = CropMask \/ a = WholeIfNoMask)) /\
+  (forall (A T : Type) (G : list A -> T) H W mask a b,
+     agree A H W mask a b -> G (crop A H W a mask) = G (crop A H W b mask)).
+Proof. exact body_methods_crop_first_lemma. Qed.
+Print Assumptions body_methods_crop_first.
+
+(* Background: for every arg-max bin of the regenerated nbins-bin histogram the returned value is in
+   [min, min + 2 (max - min)] *)
+Theorem background_value_range : forall index mn mx,
+  0 <= index -> index <= inject_Z (background_nbins - 1) -> mn <= mx ->
+  mn <= background_value index mn mx /\ background_value index mn mx <= mn + (2 # 1) * (mx - mn).
+Proof. exact background_value_range_lemma. Qed.
+Print Assumptions background_value_range.
+
+(* Kapur: the exponent of the returned 2 ** (mean of two adjacent levels) lies between the smallest and the largest
+   log2 intensity (regenerated level formula) *)
+Theorem kapur_midpoint_range : forall i j lo hi,
+  0 <= i -> i <= inject_Z (kapur_nlevels - 1) -> 0 <= j -> j <= inject_Z (kapur_nlevels - 1) -> lo <= hi ->
+  lo <= (kapur_level i lo hi + kapur_level j lo hi) / (2 # 1) /\ (kapur_level i lo hi + kapur_level j lo hi) / (2 # 1) <= hi.
+Proof. exact kapur_midpoint_range_lemma. Qed.
+Print Assumptions kapur_midpoint_range.
+
+(* RobustBackground: the mean of the trimmed sample of the reference model (tied by the stream `rob`) lies between
+   the smallest and the largest value, whatever the fractions; the defaults are the regenerated ones *)
+Theorem robust_mean_range : forall data lof uof lo hi,
+  (forall x, In x data -> (lo <= x <= hi)%Z) ->
+  let im := snd (robust_trim (zsort data) lof uof) in
+  im <> [] ->
+  inject_Z lo <= fst (mean_var im) /\ fst (mean_var im) <= inject_Z hi.
+Proof. exact robust_mean_range_lemma. Qed.
+Print Assumptions robust_mean_range.
